@@ -544,14 +544,14 @@ section StructuralDecoder
 open KV.Codec KV.CodecAcct
 
 /-- ReadResponse after the size prefix, as a `Decoder` -/
-def codecDecoder (cfg : Cfg) (flex : Bool) (t : Ty) : Decoder (Int × Val) where
+def codecDecoder (cfg : Cfg) (hrec : RecsAcct cfg) (flex : Bool) (t : Ty) : Decoder (Int × Val) where
   run := fun s =>
     match respTail cfg flex t ⟨s.inp, s.sz⟩ with
     | .ok r d => (some r, ⟨d.inp, d.remain⟩)
     | _ => (none, s)
   conserves := by
     intro s
-    have h := respTail_acctz cfg flex t ⟨s.inp, s.sz⟩
+    have h := respTail_acctz cfg hrec flex t ⟨s.inp, s.sz⟩
     cases hr : respTail cfg flex t ⟨s.inp, s.sz⟩ with
     | ok r d =>
       rw [hr] at h
@@ -562,7 +562,7 @@ def codecDecoder (cfg : Cfg) (flex : Bool) (t : Ty) : Decoder (Int × Val) where
     | balloon => exact Reader.Adv.refl s
   ok_after_discardAll := by
     intro s a h
-    have hz := respTail_acctz cfg flex t ⟨s.inp, s.sz⟩
+    have hz := respTail_acctz cfg hrec flex t ⟨s.inp, s.sz⟩
     cases hr : respTail cfg flex t ⟨s.inp, s.sz⟩ with
     | ok r d => rw [hr] at hz; simp only [hr]; exact hz.2
     | error => simp [hr] at h
@@ -573,13 +573,13 @@ def codecDecoder (cfg : Cfg) (flex : Bool) (t : Ty) : Decoder (Int × Val) where
 theorem readResponse_cut_is_error_structural (flex : Bool) (t : Ty) (frame : Bytes)
     (hframe : frame.length = 4 + (announced frame).toNat) (hpos : 0 ≤ announced frame) (k : Nat) (hk : k < frame.length)
     (r : Int × Val) (d : Dec) : readResponse Gen.decoderCfg flex t (frame.take k) ≠ .ok r d :=
-  readResponse_cut_structural Gen.decoderCfg flex t frame hframe hpos k hk r d
+  readResponse_cut_structural Gen.decoderCfg (recsAcct_none _ rfl) flex t frame hframe hpos k hk r d
 
 /-- and a decoded message means the whole announced frame, and nothing else, was consumed (Transport-side alignment) -/
 theorem readResponse_ok_aligned (flex : Bool) (t : Ty) (stream : Bytes) (r : Int × Val) (d : Dec)
     (h : readResponse Gen.decoderCfg flex t stream = .ok r d) :
     4 + (announced stream).toNat ≤ stream.length ∧ d.inp = stream.drop (4 + (announced stream).toNat) := by
-  have := readResponse_ok_consumes_frame Gen.decoderCfg flex t stream r d h
+  have := readResponse_ok_consumes_frame Gen.decoderCfg (recsAcct_none _ rfl) flex t stream r d h
   exact ⟨this.2.2.1, this.2.2.2.1⟩
 
 end StructuralDecoder
